@@ -30,6 +30,33 @@ example : fastEval ⟨['x'], .gt, .int 5⟩ [(['x'], .int (.u64 7))] = some true
 example : fastEval ⟨['x'], .eq, .int 9007199254740991⟩ [(['x'], .int (.i64 9007199254740993))] = none := by decide
 example : fastEval ⟨['x'], .lt, .flt (.fin 5)⟩ [(['x'], .flt false .nan)] = some false := by decide
 
+/-- the value is of a type (and, for 64-bit integers, a size) the shortcut for this literal handles -/
+def fits (v : Val) (lit : Lit) : Bool :=
+  match lit, v with
+  | .str _, .str _ => true
+  | .str _, _ => false
+  | _, v => (toFloat64Fast v).isSome
+
+/-- All fall-back exits of the single-comparison shortcut, and only those: it declines exactly when
+the column is missing, NULL, or its value does not fit the literal's kind (string literal: not a
+string; numeric literal: not one of float64/float32/int/int64/int32/uint/uint64/uint32, or a
+64-bit integer outside ±(2^53−1)). -/
+theorem fast_declines_iff (c : Cmp) (row : Row) :
+    fastEval c row = none ↔
+      (row.get c.field = none ∨ row.get c.field = some .null ∨
+        ∃ v, row.get c.field = some v ∧ fits v c.lit = false) := by
+  unfold fastEval
+  cases hg : row.get c.field with
+  | none => simp
+  | some v =>
+    cases hl : c.lit <;> cases v <;>
+      simp [fits, fastVal, fastStr, fastNum, toFloat64Fast] <;>
+      (split <;> simp_all)
+
+example : fits (.int (.i8 5)) (.int 5) = false ∧ fits (.int (.i32 5)) (.int 5) = true ∧
+    fits (.int (.u64 9007199254740992)) (.flt (.fin 0)) = false ∧ fits (.str []) (.int 5) = false ∧
+    fits (.flt true .nan) (.int 5) = true := by decide
+
 /-- The same for a flat `&&` / `||` chain: it answers only if every part answers, and then the
 left-to-right short-circuit evaluation of the general evaluator gives the same Boolean. -/
 theorem fast_compound_agrees (isAnd : Bool) (cs : List Cmp) (row : Row) (b : Bool) (p : Pred)
